@@ -145,6 +145,34 @@ impl Pages {
         unsafe { std::slice::from_raw_parts_mut(self.base.add(self.off), self.len) }
     }
 }
+/// a lazily mapped (never touched unless written) region of `len` bytes: stands in for a caller buffer of
+/// several GiB without costing memory
+pub struct Huge {
+    base: *mut u8,
+    len: usize,
+}
+impl Huge {
+    pub fn new(len: usize) -> Option<Huge> {
+        unsafe {
+            // PROT_READ|PROT_WRITE, MAP_PRIVATE|MAP_ANONYMOUS|MAP_NORESERVE
+            let base = mmap(std::ptr::null_mut(), len.max(PAGE), 3, 0x4022, -1, 0);
+            if base.is_null() || base as isize == -1 {
+                return None;
+            }
+            Some(Huge { base, len })
+        }
+    }
+    pub fn slice_mut(&mut self) -> &mut [u8] {
+        unsafe { std::slice::from_raw_parts_mut(self.base, self.len) }
+    }
+}
+impl Drop for Huge {
+    fn drop(&mut self) {
+        unsafe {
+            munmap(self.base, self.len.max(PAGE));
+        }
+    }
+}
 impl Drop for Pages {
     fn drop(&mut self) {
         unsafe {
